@@ -22,6 +22,9 @@ def expected_cycles(case, x, min_extrema=3):
     nm = ref.names(case['center'])
     if len(cols[nm['center']]) + 1 < min_extrema:
         raise Discard('fewer than three full oscillations')
+    # the band-amplitude column is delegated to neurodsp's amp_by_time (3-cycle filter): where that trusted call rejects the
+    # band for this sampling rate ("Invalid transition band"), compute_features has no table to return either
+    ref.ref_band_amp(x, case['fs'], tuple(case['f_range']))
     return cols
 
 
